@@ -57,6 +57,14 @@ def multiply(
 
     """
     x1, x2 = numpoly.align_indeterminants(x1, x2)
+    if out is not None and tuple(out.names) != tuple(x1.names):
+        # the product's terms are stored under keys that spell exponents in
+        # the order of the aligned names: in an array that lists other names
+        # (or the same in another order) they would denote other monomials
+        raise ValueError(
+            f"'out' is a polynomial in {out.names}, the product one in "
+            f"{x1.names}; align it with the operands first"
+        )
 
     dtype = numpy.result_type(x1, x2)
     shape = numpy.broadcast_shapes(x1.shape, x2.shape)
